@@ -410,7 +410,7 @@ def read_buffers(acc, size, rng):
 
 
 def write_buffers(acc, size, rng):
-    return [[0] * size, [255] * size, [rng.randrange(256) for _ in range(size)],
+    return [[[0] * size, [255] * size][acc.id % 2], [rng.randrange(256) for _ in range(size)],
             [rng.randrange(256) for _ in range(acc.boff + acc.c - 1)]]
 
 
@@ -424,7 +424,7 @@ def write_values(acc, rng):
     if acc.kind == "enum":
         tys = [acc.ut]
     else:
-        tys = [ARGTYS[(acc.id * 3 + j * 3 + j) % 8] for j in range(3)]
+        tys = [ARGTYS[(acc.id * 3 + j * 5) % 8] for j in range(2)]
         tys = list(dict.fromkeys(tys))
     out = []
     for t in tys:
@@ -734,7 +734,8 @@ def check_read(acc, root, o):
     need_bits, need_signed = spec_value_type(acc)
     exp = dict(complete=cpl)
     if o["oob"]:
-        return "out-of-bounds-write", "bytes after the buffer changed during a read", exp
+        k = read_key(acc, root, o, "oob")
+        return (k if not k.startswith("scalar-") else "out-of-bounds-write"), "bytes after the buffer changed during a read", exp
     if not cpl:
         exp.update(ok=False)
         if o["chk"] or o["cpl"] or o["ok"]:
@@ -775,7 +776,8 @@ def check_write(acc, root, t, v, o):
     cw, tw, rd, after = spec_write(acc, root, v)
     exp = dict(could_write=cw, try_write=tw, read_after=rd, buffer_after=hexs(after))
     if o["oob"]:
-        return "out-of-bounds-write", "bytes after the buffer changed", exp
+        k = write_key(acc, root, t, v, o, "oob")
+        return (k if not k.startswith("scalar-") else "out-of-bounds-write"), "bytes after the buffer changed", exp
     if o["chk"]:
         return write_key(acc, root, t, v, o, "check"), "%d EMBOSS_CHECK failure(s)" % o["chk"], exp
     if o["cw"] != cw:
